@@ -18,7 +18,10 @@ open Generated in
 /-- Every entry of the operator / comparison / known-function tables read from `source_tools.py` has a
 symbolic meaning equal to the Python operator's meaning, and the six control facts hold: `subs` is simultaneous,
 tuple assignments translate the right-hand side first, unhandled statement kinds are refused, every branch of an `if` is
-translated against a copy of the symbol table, `_check_branch` guards every branch, tests go through `_handle_test`. -/
+translated against a copy of the symbol table *and of the function-local import tables*, `_check_branch` guards every
+branch, tests go through `_handle_test`, a chained assignment binds every target, `a, b = e` (no tuple display) is refused,
+a function-local import binds ints like floats and refuses other objects, positional-only parameters are arguments and
+`*args` / keyword-only / `**kw` signatures are refused. -/
 theorem C06_table_sound : TablesOk Generated.tables where
   unops := by
     intro op s hmem x v h
@@ -44,6 +47,11 @@ theorem C06_table_sound : TablesOk Generated.tables where
   branchCopies := rfl
   fallChecked := rfl
   testsBool := rfl
+  chainAll := rfl
+  unpackRefused := rfl
+  importsStrict := rfl
+  importsCopied := rfl
+  sigStrict := rfl
 
 /-- the meaning (as a mathematical constant) of a `KNOWN_CONSTANTS` key / value text -/
 def pyConstMeaning : String → Option String
@@ -84,19 +92,23 @@ theorem C06_rename_sound (P : Prog) (d : FnDef) (f1 f2 : Nat) (ms : List SExpr) 
   | cons m ms =>
     exact (sound_all C06_table_sound f1).fnSubst d m ms e htr f2 vs v hpy ρ hargs
 
-/-- **Nested calls.** The translation of `g(args)` is the translation of `g`'s body with the translated
-arguments substituted *simultaneously* for `g`'s parameters. -/
-theorem C06_nested_call (P : Prog) (f : Nat) (G : List (String × GVal)) (ctx : Syms) (g : String)
+/-- **Nested calls.** The translation of `g(args)` is the translation of `g`'s body — started with *empty* import
+tables: the callee never sees the caller's function-local imports — with the translated arguments substituted
+*simultaneously* for `g`'s parameters.  The function expression is resolved among the caller's function-local
+imports first (`I ++ G`). -/
+theorem C06_nested_call (P : Prog) (f : Nat) (G : List (String × GVal)) (I : Imps) (ctx : Syms) (g : String)
     (args : List PyExpr) (d : FnDef) (sargs : List SExpr) (e : SExpr) (c' : Syms)
-    (func : String) (hres : resolveCall G func = .user g)
-    (hfind : P.find g = some d) (hargs : trArgs Generated.tables P (f+1) G ctx args = .ok sargs)
-    (hne : sargs ≠ []) (hlen : sargs.length = d.params.length)
-    (hbody : trBody Generated.tables P f d.globals d.body (d.params.map (fun p => (p, SExpr.sym p))) = .ok (e, c')) :
-    trExpr Generated.tables P (f+2) G ctx (.call func args) = .ok (substSim (d.params.zip sargs) e) := by
+    (func : String) (hres : resolveCall (I ++ G) func = .user g)
+    (hfind : P.find g = some d) (hargs : trArgs Generated.tables P (f+1) G I ctx args = .ok sargs)
+    (hne : sargs ≠ []) (hlen : sargs.length = d.params.length) (hsig : d.otherParams = false)
+    (hbody : trBody Generated.tables P f d.globals [] d.body (d.params.map (fun p => (p, SExpr.sym p))) = .ok (e, c')) :
+    trExpr Generated.tables P (f+2) G I ctx (.call func args) = .ok (substSim (d.params.zip sargs) e) := by
   rw [trExpr, hargs]
   simp only [bind, Except.bind, hres, hfind]
   rw [fnToSympy]
   unfold trBody at hbody
+  have hs : Generated.tables.sigStrict = true := rfl
+  simp only [hs, hsig, Bool.and_false, Bool.false_eq_true, ↓reduceIte]
   rw [hbody]
   simp only [bind, Except.bind]
   cases sargs with
@@ -169,15 +181,136 @@ example :
     evalS (envOf [("x", .num 3)]) (.pw (.num 1) (.sym "x") (.pw (.num 2) (.boolLit true) .pwEnd)) = none := by
   decide +kernel
 
-/-- each of the three repairs is needed: tables without it are not `TablesOk` -/
+/-- each of the repairs is needed: tables without it are not `TablesOk` -/
 theorem C06_repairs_needed :
     ¬ TablesOk { Generated.tables with branchCopies := false } ∧
     ¬ TablesOk { Generated.tables with fallThroughChecked := false } ∧
-    ¬ TablesOk { Generated.tables with testsBoolean := false } := by
-  refine ⟨?_, ?_, ?_⟩
+    ¬ TablesOk { Generated.tables with testsBoolean := false } ∧
+    ¬ TablesOk { Generated.tables with chainAssignAll := false } ∧
+    ¬ TablesOk { Generated.tables with unpackRefused := false } ∧
+    ¬ TablesOk { Generated.tables with importsStrict := false } ∧
+    ¬ TablesOk { Generated.tables with importsCopied := false } ∧
+    ¬ TablesOk { Generated.tables with sigStrict := false } := by
+  refine ⟨?_, ?_, ?_, ?_, ?_, ?_, ?_, ?_⟩
   · intro h; exact absurd h.branchCopies (by decide)
   · intro h; exact absurd h.fallChecked (by decide)
   · intro h; exact absurd h.testsBool (by decide)
+  · intro h; exact absurd h.chainAll (by decide)
+  · intro h; exact absurd h.unpackRefused (by decide)
+  · intro h; exact absurd h.importsStrict (by decide)
+  · intro h; exact absurd h.importsCopied (by decide)
+  · intro h; exact absurd h.sigStrict (by decide)
+
+/-! ### round 3: chained assignment, unpacking, signatures, function-local imports -/
+
+/-- `def f(x): y = x; z = y = 2 * x; return y`  (was F-C06-11: only `z` was bound, the result was `x`) -/
+def chainFn : FnDef where
+  name := "f"
+  params := ["x"]
+  globals := []
+  body := [.assign "y" (.name "x"), .multiAssign ["z", "y"] (.bin .mul (.num 2) (.name "x")), .ret (.name "y")]
+
+/-- `def f(x, y): x, y = divmod(x, y); return x`  (was F-C06-12: nothing bound, the result was `x`) -/
+def unpackFn : FnDef where
+  name := "f"
+  params := ["x", "y"]
+  globals := []
+  body := [.unpackAssign ["x", "y"] (.call "divmod" [.name "x", .name "y"]), .ret (.name "x")]
+
+/-- module-level `NI = 2.5`; `def f(x): from g import NI  (an int, 3); return x * NI`  (was F-C06-13: translated with 2.5) -/
+def intImportFn : FnDef where
+  name := "f"
+  params := ["x"]
+  globals := [("NI", .flt (5/2))]
+  body := [.importS [("NI", .int 3)], .ret (.bin .mul (.name "x") (.name "NI"))]
+
+/-- module-level `a = 7.0`; `def f(a, /, b): return a * b`  (was F-C06-14: translated to 7.0 * b) -/
+def posonlyFn : FnDef where
+  name := "f"
+  params := ["a", "b"]
+  nPosonly := 1
+  globals := [("a", .flt 7)]
+  body := [.ret (.bin .mul (.name "a") (.name "b"))]
+
+/-- `def hg(a, b): return a * b + 1`, `def hh(a, b): return a * b` and
+`def f(x, y): from h import hmul; if x > 0: from g import hmul; return hmul(x, y); return hmul(x, y)`
+(was F-C06-15: the import made in the branch was visible after it) -/
+def hgFn : FnDef := { name := "g:hmul", params := ["a", "b"], globals := [],
+                      body := [.ret (.bin .add (.bin .mul (.name "a") (.name "b")) (.num 1))] }
+def hhFn : FnDef := { name := "h:hmul", params := ["a", "b"], globals := [],
+                      body := [.ret (.bin .mul (.name "a") (.name "b"))] }
+def branchImportFn : FnDef where
+  name := "f"
+  params := ["x", "y"]
+  globals := []
+  body := [.importS [("hmul", .objs [("hmul", .fn (.user "h:hmul"))])],
+           .ifs (.cmp (.name "x") [.gt] [.num 0])
+             [.importS [("hmul", .objs [("hmul", .fn (.user "g:hmul"))])], .ret (.call "hmul" [.name "x", .name "y"])] [],
+           .ret (.call "hmul" [.name "x", .name "y"])]
+
+/-- the five round-3 witnesses today: translated correctly, or refused -/
+theorem C06_round3_witnesses_now :
+    fnToSympy Generated.tables [chainFn] 20 chainFn none = .ok (.bin .mul (.num 2) (.sym "x")) ∧
+    (fnToSympy Generated.tables [unpackFn] 20 unpackFn none).toOption = none ∧
+    fnToSympy Generated.tables [intImportFn] 20 intImportFn none = .ok (.bin .mul (.sym "x") (.num 3)) ∧
+    fnToSympy Generated.tables [posonlyFn] 20 posonlyFn none = .ok (.bin .mul (.sym "a") (.sym "b")) ∧
+    fnToSympy Generated.tables [hgFn, hhFn, branchImportFn] 20 branchImportFn none
+      = .ok (.pw (.bin .add (.bin .mul (.sym "x") (.sym "y")) (.num 1)) (.rel .gt (.sym "x") (.num 0))
+              (.pw (.bin .mul (.sym "x") (.sym "y")) (.boolLit true) .pwEnd)) := by
+  decide +kernel
+
+/-- … and Python's values of the same functions (the model's Python semantics of the new constructs) -/
+example :
+    callFn [chainFn] 20 chainFn [.num 3] = some (.num 6) ∧
+    callFn [intImportFn] 20 intImportFn [.num 2] = some (.num 6) ∧
+    callFn [posonlyFn] 20 posonlyFn [.num 2, .num 3] = some (.num 6) ∧
+    callFn [hgFn, hhFn, branchImportFn] 20 branchImportFn [.num 2, .num 3] = some (.num 7) ∧
+    callFn [hgFn, hhFn, branchImportFn] 20 branchImportFn [.num (-2), .num 3] = some (.num (-6)) := by
+  decide +kernel
+
+/-- the tables of the code before the round-3 repairs -/
+def preRound3Tables : Tables :=
+  { Generated.tables with chainAssignAll := false, unpackRefused := false, importsStrict := false, sigStrict := false }
+
+example :
+    fnToSympy preRound3Tables [chainFn] 20 chainFn none = .ok (.sym "x") ∧
+    fnToSympy preRound3Tables [] 20
+      { name := "f", params := ["x", "y"], globals := [],
+        body := [.unpackAssign ["x", "y"] (.bin .add (.name "x") (.name "y")), .ret (.name "x")] } none = .ok (.sym "x") ∧
+    fnToSympy preRound3Tables [intImportFn] 20 intImportFn none = .ok (.bin .mul (.sym "x") (.num (5/2))) ∧
+    fnToSympy preRound3Tables [posonlyFn] 20 posonlyFn none = .ok (.bin .mul (.num 7) (.sym "b")) := by
+  decide +kernel
+
+/-- a signature with `*args`, keyword-only parameters or `**kw` is refused, whatever the body -/
+theorem C06_other_params_refused (P : Prog) (f : Nat) (d : FnDef) (margs : Option (List SExpr))
+    (h : d.otherParams = true) : (fnToSympy Generated.tables P f d margs).toOption = none := by
+  cases f with
+  | zero => rfl
+  | succ f =>
+    rw [fnToSympy]
+    have hs : Generated.tables.sigStrict = true := rfl
+    simp [hs, h, Except.toOption]
+
+/-- `a, b = e` where `e` is not a tuple display is refused wherever it stands at the head of the remaining body -/
+theorem C06_unpack_refused (P : Prog) (f : Nat) (G : List (String × GVal)) (I : Imps) (body rest : List PyStmt)
+    (pieces : List (SExpr × SExpr)) (isElif : Bool) (ctx : Syms) (xs : List String) (e : PyExpr) :
+    (trLoop Generated.tables P f G I body pieces (.unpackAssign xs e :: rest) isElif ctx).toOption = none := by
+  cases f with
+  | zero => rfl
+  | succ f =>
+    simp only [trLoop]
+    have hs : Generated.tables.unpackRefused = true := rfl
+    simp [hs, Except.toOption]
+
+/-- **Callee isolation.** A nested call is translated with empty import tables and a fresh symbol table: the result does
+not depend on the caller's function-local imports or locals. -/
+theorem C06_callee_isolated (P : Prog) (f : Nat) (G : List (String × GVal)) (I₁ I₂ : Imps) (ctx₁ ctx₂ : Syms)
+    (func : String) (args : List PyExpr) (sargs : List SExpr)
+    (h1 : trArgs Generated.tables P f G I₁ ctx₁ args = .ok sargs)
+    (h2 : trArgs Generated.tables P f G I₂ ctx₂ args = .ok sargs)
+    (hres : resolveCall (I₁ ++ G) func = resolveCall (I₂ ++ G) func) :
+    trExpr Generated.tables P (f+1) G I₁ ctx₁ (.call func args) = trExpr Generated.tables P (f+1) G I₂ ctx₂ (.call func args) := by
+  rw [trExpr, trExpr, h1, h2, hres]
 
 /-- why the repair of F-C06-4 was needed: sequential substitution is not substitution.
 `(a - b).subs({a: b, b: a})` done one key after the other is `a - a`. -/
@@ -242,5 +375,85 @@ example : (fnToSympy Generated.tables [fallFn] 20 fallFn none).toOption.isSome =
     evalS (envOf [("a", .num (1/2))]) ((fnToSympy Generated.tables [fallFn] 20 fallFn none).toOption.getD .pwEnd)
       = some (.num (1/4)) := by
   decide +kernel
+
+/-! ### facts read from the source text of `_check_branch`, `_handle_expr`, `_handle_fn_body` -/
+
+/-- **`_check_branch` is `branchOk`.** The accepting conditions of `_check_branch`, as `translate/c06.py` reads them from the
+current source (`Generated.checkBranchAccept`: each `if <conjunction>: return` before the final `raise`, every conjunct
+recognised by its source text), decide exactly the `branchOk` that `trLoop` applies — for every branch and continuation. -/
+theorem C06_check_branch_generated (rest b : List PyStmt) :
+    checkBranchG Generated.checkBranchAccept rest b = branchOk rest b := by
+  unfold branchOk
+  rw [assignOnly_eq_plain]
+  simp only [checkBranchG, Generated.checkBranchAccept, List.any_cons, List.any_nil, List.all_cons, List.all_nil,
+    Bool.and_true, Bool.or_false, cbAtom]
+  cases hp : (!b.isEmpty && b.all isPlainAssign) with
+  | false => simp
+  | true =>
+    have hall : b.all isPlainAssign = true := by
+      simp only [Bool.and_eq_true] at hp; exact hp.2
+    rw [lastAssigned_plain b hall]
+    cases rest with
+    | nil => simp
+    | cons r rs =>
+      cases rs with
+      | cons r2 rs2 =>
+        simp only [List.isEmpty_cons, List.length_cons, Bool.true_and, Bool.false_or]
+        cases bodyReturns b <;> simp <;> omega
+      | nil =>
+        simp only [List.isEmpty_cons, List.length_cons, List.length_nil, List.head?_cons, Bool.true_and, Bool.false_or]
+        cases r with
+        | ret e =>
+          cases e with
+          | name n =>
+            cases hg : b.getLast? with
+            | none => simp
+            | some t => cases t <;> simp
+          | _ => simp
+        | _ => simp
+
+/-- **Every expression class outside the generated list is refused.** `Generated.exprKinds` = the `ast` classes
+`_handle_expr` tests with `isinstance` before its final `raise NotImplementedError`; a node of any other class (BoolOp,
+Lambda, NamedExpr, Subscript, Tuple, …: the model's `unsupported`) has no translation. -/
+theorem C06_unlisted_expr_refused (e : PyExpr) (h : exprClass e ∉ Generated.exprKinds)
+    (P : Prog) (f : Nat) (G : List (String × GVal)) (I : Imps) (ctx : Syms) :
+    (trExpr Generated.tables P f G I ctx e).toOption = none := by
+  cases f with
+  | zero => rfl
+  | succ f =>
+    cases e with
+    | unsupported => rw [trExpr]; rfl
+    | _ => exact absurd (by simp [exprClass, Generated.exprKinds]) h
+
+/-- … and every listed class has a constructor in the model (no class is dispatched on that the model ignores) -/
+theorem C06_expr_kinds_covered :
+    Generated.exprKinds.all (fun k => ["Constant", "Name", "Attribute", "UnaryOp", "BinOp", "Compare", "IfExp", "Call"].contains k) = true := by
+  decide
+
+/-- **Every statement class outside the generated list is refused** (`for`, `while`, `with`, augmented and annotated
+assignment, `try`, `match`, nested `def`, …), wherever it stands. -/
+theorem C06_unlisted_stmt_refused (st : PyStmt) (h : stmtClass st ∉ Generated.stmtKinds)
+    (P : Prog) (f : Nat) (G : List (String × GVal)) (I : Imps) (body rest : List PyStmt)
+    (pieces : List (SExpr × SExpr)) (isElif : Bool) (ctx : Syms) :
+    (trLoop Generated.tables P f G I body pieces (st :: rest) isElif ctx).toOption = none := by
+  cases f with
+  | zero => rfl
+  | succ f =>
+    have hs : Generated.tables.unknownStmtRefused = true := rfl
+    cases st with
+    | augAssign x op e => simp only [trLoop, hs]; rfl
+    | unhandled => simp only [trLoop, hs]; rfl
+    | _ => exact absurd (by simp [stmtClass, Generated.stmtKinds]) h
+
+theorem C06_stmt_kinds_covered :
+    Generated.stmtKinds.all (fun k => ["If", "Return", "Assign", "Import", "ImportFrom", "Expr", "Pass"].contains k) = true := by
+  decide
+
+/-- non-vacuity of the accepted fall-through shape, and the shape of the round-3 seeded change (the returned name is
+assigned in the branch, but not last) is not accepted -/
+example :
+    branchOk [.ret (.name "v")] [.assign "s" (.num 1), .assign "v" (.num 2)] = true ∧
+    branchOk [.ret (.name "v")] [.assign "v" (.num 2), .assign "s" (.num 1)] = false ∧
+    branchOk [.ret (.name "v")] [.multiAssign ["v", "s"] (.num 2)] = false := by decide
 
 end Mxl.C06
